@@ -18,6 +18,7 @@ class Contract:
         self.variants = dict(kw.pop('variants', {}))      # loop ordinal -> int expr (must decrease, >= 0)
         self.loop_frames = dict(kw.pop('loop_frames', {}))
         self.hints = list(kw.pop('hints', []))
+        self.axioms = list(kw.pop('axioms', []))     # definitions of spec functions (assumed at entry, never checked at call sites)
         self.inline = kw.pop('inline', False)
         self.trusted = kw.pop('trusted', False)     # assumed, never verified (externals / built-ins)
         self.why_trusted = kw.pop('why', '')
@@ -28,6 +29,7 @@ class Contract:
         self.pure = kw.pop('pure', False)
         self.covers = list(kw.pop('covers', []))    # extra reachability checks (must be sat)
         self.tier = kw.pop('tier', 'quick')
+        self.max_paths = kw.pop('max_paths', 24)     # live paths before sibling states are merged
         if kw:
             raise TypeError('unknown contract keys %s for %s' % (list(kw), qual))
 
